@@ -81,6 +81,11 @@ func (h *hist) violated(key, what string) {
 	h.run.Violation("C07:"+h.rn+":"+key, int64(h.caseIdx), what, map[string]any{"router": h.rn, "refresh_disabled_world": h.allOff, "history": h.log})
 }
 
+// flag reports a violation that does not invalidate the model (the history goes on, so that what follows it is still judged).
+func (h *hist) flag(key, what string) {
+	h.run.Violation("C07:"+h.rn+":"+key, int64(h.caseIdx), what, map[string]any{"router": h.rn, "refresh_disabled_world": h.allOff, "history": slices.Clone(h.log)})
+}
+
 // panicked handles a recovered panic of a request; true = stop.
 func (h *hist) panicked(resp *opdrv.Resp) bool {
 	if resp.Panic == nil {
@@ -228,8 +233,8 @@ func (h *hist) mint() {
 		h.violated("refresh-token-not-from-storage", "the refresh_token of an original grant is not one the storage minted")
 		return
 	}
-	ch := &chain{id: k, client: c.ID, via: via, sub: rec.Subject, aud: sortedSet(rec.Audience), authTime: rec.AuthTime, origin: slices.Clone(rec.Scopes)}
-	t := &tok{s: toks.Refresh, ch: ch, granted: slices.Clone(rec.Scopes), live: true, access: toks.Access}
+	ch := &chain{id: k, client: c.ID, via: via, sub: rec.Subject, aud: sortedSet(rec.Audience), authTime: rec.AuthTime, origin: noEmpty(rec.Scopes)}
+	t := &tok{s: toks.Refresh, ch: ch, granted: noEmpty(rec.Scopes), live: true, access: toks.Access}
 	ch.toks = append(ch.toks, t)
 	h.chains = append(h.chains, ch)
 	h.toks = append(h.toks, t)
@@ -692,10 +697,11 @@ func (h *hist) refresh() {
 			if f == "sub" && sub == "" {
 				f = "sub-missing"
 			}
-			h.violated("id-token-binding:"+f, fmt.Sprintf("new id_token: azp=%v sub=%v aud=%v auth_time=%v; original grant: client=%s sub=%s aud=%v auth_time=%d", idc["azp"], idc["sub"], idc["aud"], idc["auth_time"], ch.client, ch.sub, ch.aud, ch.authTime.Unix()))
-			return
+			h.flag("id-token-binding:"+f, fmt.Sprintf("new id_token: azp=%v sub=%v aud=%v auth_time=%v; original grant: client=%s sub=%s aud=%v auth_time=%d", idc["azp"], idc["sub"], idc["aud"], idc["auth_time"], ch.client, ch.sub, ch.aud, ch.authTime.Unix()))
+			h.run.Count("checked", "id_token_claims_differ:"+f)
+		} else {
+			h.run.Count("checked", "id_token_claims")
 		}
-		h.run.Count("checked", "id_token_claims")
 	}
 	if strings.Count(toks.Access, ".") == 2 {
 		ac, err := h.w.VerifyWithOPKey(toks.Access)
@@ -721,7 +727,9 @@ func (h *hist) refresh() {
 		what string
 		got  []string
 	}{{"refresh-token", newRec.Scopes}, {"access-token", atRec.Scopes}, {"response", respScope}} {
-		if !subset(x.got, t.granted) || !subset(x.got, ch.origin) {
+		// an empty item (from malformed spacing) is not a scope
+		got := slices.DeleteFunc(slices.Clone(x.got), func(s string) bool { return s == "" })
+		if !subset(got, t.granted) || !subset(got, ch.origin) {
 			h.violated("scope-grew:"+x.what, fmt.Sprintf("scope of the new %s is %v; the presented token was granted %v (original grant %v)", x.what, x.got, t.granted, ch.origin))
 			return
 		}
@@ -738,7 +746,7 @@ func (h *hist) refresh() {
 	}
 	// ---- model update ----
 	t.live, t.dead = false, "rotated"
-	nt := &tok{s: toks.Refresh, ch: ch, pos: t.pos + 1, granted: slices.Clone(newRec.Scopes), live: true, access: toks.Access}
+	nt := &tok{s: toks.Refresh, ch: ch, pos: t.pos + 1, granted: noEmpty(newRec.Scopes), live: true, access: toks.Access}
 	ch.toks = append(ch.toks, nt)
 	h.toks = append(h.toks, nt)
 	h.last = ch
@@ -770,6 +778,11 @@ func greyWhy(c cred, own bool, scopeKind string, t *tok) string {
 		return "after-replay-in-chain"
 	}
 	return "after-failed-attempt"
+}
+
+// noEmpty copies a recorded scope list without empty items (an empty item is not a scope).
+func noEmpty(xs []string) []string {
+	return slices.DeleteFunc(slices.Clone(xs), func(s string) bool { return s == "" })
 }
 
 func audList(v any) []string {
@@ -891,6 +904,12 @@ func main() {
 		"success is demanded only for the token's own, plainly configured client with its one registered credential and an absent / equal / permuted / subset scope list; duplicates, an empty scope parameter, malformed spacing, other-method or superfluous credentials are grey for success and strict for refusal",
 		"a public client counts as identified when its client_id is named anywhere in the request",
 		"original grants are taken as the storage recorded them (their correctness is C04/C06/C16)")
+	n := run.N(2000, 40000)
+	if rc := run.ReplayCase(); rc >= 0 {
+		runHistory(run, int(rc), 0)
+		runHistory(run, int(rc), 1)
+		run.Finish()
+	}
 	var mand []string
 	for _, rn := range opdrv.RouterNames {
 		for _, m := range []string{"success", "success-public", "success-private_key_jwt", "refused-foreign-authenticated", "refused-unauthenticated", "refused-invalid_scope", "refused-regrow", "refused-replay", "refused-disabled", "refused-deregistered", "chain>=4", "narrowed-twice", "history-with-refresh-disabled"} {
@@ -898,12 +917,6 @@ func main() {
 		}
 	}
 	run.Mandatory(mand...)
-	n := run.N(2000, 40000)
-	if rc := run.ReplayCase(); rc >= 0 {
-		runHistory(run, int(rc), 0)
-		runHistory(run, int(rc), 1)
-		run.Finish()
-	}
 	ev.Parallel(n, 0, func(_ int, i int) {
 		runHistory(run, i, 0)
 		runHistory(run, i, 1)
